@@ -266,6 +266,20 @@ Example C07_store_hyps_example :
   (forall p c, In c (ctab pf_ct p) -> (N.to_nat c < N.to_nat p)%nat).
 Proof. exact (conj pf_content_isman pf_rank_dec). Qed.
 
+(* The store theorems take [fst] of [orun]: a GC / reopen that ran out of fuel is a no-op in
+   the model.  That never hides a real step: with fuel above the size of any finite universe
+   closed under [content] that contains the entries of the resolver and of index.json, every
+   step other than a refused PForeign reports success (per step; audit F8). *)
+Theorem C07_store_step_terminates :
+  forall content isman U fuel fixed save_late reroot s o,
+    (forall u, In u U -> forall c, In c (content u) -> In c U) ->
+    (1 + pot content U [] < fuel)%nat ->
+    (forall x, In x (o_tagged s) \/ In x (o_dtagged s) \/ In x (o_dbydigest s) -> In x U) ->
+    match o with PGC kept => forall x, In x kept -> In x U | PForeign _ => False | _ => True end ->
+    snd (ostep fixed save_late reroot content isman fuel s o) = true.
+Proof. exact store_step_terminates. Qed.
+Print Assumptions C07_store_step_terminates.
+
 (* Scope: [ops] are operations that COMPLETE.  An operation aborted by the environment
    half-way is not covered, and the statement is false there: a Delete whose unlink fails
    after Untag / graph.Remove / saveIndex (EPERM, open handle on NTFS) leaves the blob stored
